@@ -13,7 +13,7 @@ import (
 func init() { Registry["C06"] = c06 }
 
 func c06(c *Ctx) {
-	c.R.Explanation = "C06: only the range clause (every curve evaluates to an integer in 0..255) is decided, by the symbolic range analysis (E4) with assume/guarantee on the interface SpeedCurve.Evaluate: at call sites (members of a function curve) result #0 is *assumed* in [0,255]; for every implementation each nil-error return is *proved* in [0,255] per incoming edge of the result (one obligation per curve form), which makes arbitrarily nested function curves an induction instead of an unrolling. Proved forms: linear min/max (saturation edges, n/(X-Y) rule, *255, truncation), PID (util.Coerce(.,0,1) evaluated in place, *255), function types sum (monotone loop-carried sum, math.Min(255,.)), difference (non-increasing after the first member, math.Max(0,.)), minimum, maximum, and the unknown-type default. R-members = every member evaluation of a function curve is performed on the object looked up, in that evaluation, for an element of Config.Function.Curves (the aggregate covers exactly the configured members). Not decided, by design, and listed as such: agreement with the documented function (numerical); delta and average (need the relational facts dmax >= dmin and total <= 255*n); the steps form (convexity of a loop-carried interpolation needs a relational loop invariant)."
+	c.R.Explanation = "C06: only the range clause (every curve evaluates to an integer in 0..255) is decided, by the symbolic range analysis (E4) with assume/guarantee on the interface SpeedCurve.Evaluate: at call sites (members of a function curve) result #0 is *assumed* in [0,255]; for every implementation each nil-error return is *proved* in [0,255] per incoming edge of the result (one obligation per curve form), which makes arbitrarily nested function curves an induction instead of an unrolling. Proved forms: linear min/max (saturation edges, n/(X-Y) rule, *255, truncation), PID (util.Coerce(.,0,1) evaluated in place, *255), function types sum (monotone loop-carried sum, math.Min(255,.)), difference (non-increasing after the first member, math.Max(0,.)), minimum, maximum, and the unknown-type default. R-members = every member evaluation of a function curve is performed on the object looked up, in that evaluation, for an element of Config.Function.Curves (the aggregate covers exactly the configured members). R-current = every successful return of every Evaluate implementation is preceded on all paths by SetValue of the returned value (CurrentValue, read by the API, metrics and parent curves, agrees with Evaluate). Not decided, by design, and listed as such: agreement with the documented function (numerical); delta and average (need the relational facts dmax >= dmin and total <= 255*n); the steps form (convexity of a loop-carried interpolation needs a relational loop invariant)."
 	c.R.Assumptions = append(c.R.Assumptions,
 		"sensor values are finite, non-NaN (the property excludes the rest: C08) so negated float comparisons behave as on reals",
 		"linear curves have min < max (hypothesis of the n/(X-Y) rule)",
@@ -127,17 +127,27 @@ func c06(c *Ctx) {
 	for _, fn := range c.ImplMethods(PkgCurves, "SpeedCurve", "Evaluate") {
 		fk := c.FK(fn)
 		tbm := ir.NewTB(c.P.IsRepoFunc, c.P.FuncKey)
+		tbm.ParamCallers = c.StaticCallers // the lookup may sit in a helper that receives the member id
 		n, bad := 0, ""
+		// the evaluation itself and the curves-package helpers it calls that hand back a member's value
+		scope := []*ssa.Function{fn}
 		Calls(fn, func(cc ssa.CallInstruction) {
-			if !ir.IsInvoke(cc, PkgCurves, "SpeedCurve", "Evaluate") {
-				return
-			}
-			n++
-			t := tbm.Of(cc.Common().Value, nil)
-			if !strings.Contains(t.String(), "field:Curves(field:Function") {
-				bad = "a member is evaluated that is not looked up from Config.Function.Curves in this evaluation (" + t.String() + ") at " + c.P.Pos(cc.Pos())
+			if cal := ir.Callee(cc).Static; cal != nil && load_FuncPkgPath(cal) == PkgCurves && yieldsCurveValue(cal, 2) {
+				scope = append(scope, cal)
 			}
 		})
+		for _, sf := range scope {
+			Calls(sf, func(cc ssa.CallInstruction) {
+				if !ir.IsInvoke(cc, PkgCurves, "SpeedCurve", "Evaluate") {
+					return
+				}
+				n++
+				t := tbm.Of(cc.Common().Value, nil)
+				if !strings.Contains(t.String(), "field:Curves(field:Function") {
+					bad = "a member is evaluated that is not looked up from Config.Function.Curves in this evaluation (" + t.String() + ") at " + c.P.Pos(cc.Pos())
+				}
+			})
+		}
 		if n == 0 {
 			continue
 		}
@@ -148,23 +158,57 @@ func c06(c *Ctx) {
 		}
 	}
 	c.R.Require("R-members", 1)
-	// the value stored for API/metrics (CurrentValue) is the returned one
+	// the value stored for API/metrics (CurrentValue) is the returned one, on every successful path
 	for _, fn := range c.ImplMethods(PkgCurves, "SpeedCurve", "Evaluate") {
 		fk := c.FK(fn)
-		okStore := false
-		Calls(fn, func(cc ssa.CallInstruction) {
-			if st := ir.Callee(cc).Static; st != nil && st.Name() == "SetValue" {
-				for _, r := range ir.Returns(fn) {
-					if len(cc.Common().Args) == 2 && ir.Resolve(cc.Common().Args[1]) == ir.Resolve(r.Results[0]) {
-						okStore = true
-					}
+		ei := errResultIndex(fn)
+		if ei < 0 || len(fn.Blocks) == 0 {
+			continue
+		}
+		isSet := func(ins ssa.Instruction) bool {
+			cc, ok := ins.(ssa.CallInstruction)
+			if !ok {
+				return false
+			}
+			if _, isDefer := ins.(*ssa.Defer); isDefer {
+				return false
+			}
+			st := ir.Callee(cc).Static
+			return st != nil && st.Name() == "SetValue" && len(cc.Common().Args) == 2
+		}
+		succeeds := func(rv retVia) bool {
+			facts := factsAt(rv.ret.Block(), rv.via)
+			return mayBeNilError(rv.ret.Results[ei], facts) && mayBeNilError(ir.ResultVia(rv.ret, ei, rv.via), facts)
+		}
+		bad := ""
+		for _, rv := range returnsFrom([]ir.Point{{Block: fn.Blocks[0]}}, ir.Search{StopInstr: isSet}) {
+			if succeeds(rv) {
+				bad = "a successful return at " + c.P.Pos(rv.ret.Pos()) + " is reachable without publishing the value via SetValue: CurrentValue (API, metrics, parent curves reading it) disagrees with what Evaluate returned"
+			}
+		}
+		nSet := 0
+		Instrs(fn, func(ins ssa.Instruction) {
+			if !isSet(ins) {
+				return
+			}
+			nSet++
+			arg := ir.Resolve(ins.(ssa.CallInstruction).Common().Args[1])
+			for _, rv := range returnsFrom([]ir.Point{ir.After(ins)}, ir.Search{StopInstr: isSet}) {
+				if !succeeds(rv) {
+					continue
+				}
+				if ir.Resolve(ir.ResultVia(rv.ret, 0, rv.via)) != arg && ir.Resolve(rv.ret.Results[0]) != arg && bad == "" {
+					bad = "the value published via SetValue at " + c.P.Pos(ins.Pos()) + " differs from the value returned at " + c.P.Pos(rv.ret.Pos())
 				}
 			}
 		})
-		if okStore {
-			c.R.Ok("R-current", fk, fk, c.P.Pos(fn.Pos()), "the value published via SetValue/CurrentValue is the returned value")
+		if nSet == 0 {
+			bad = "Evaluate never publishes its value via SetValue"
+		}
+		if bad == "" {
+			c.R.Ok("R-current", fk, fk, c.P.Pos(fn.Pos()), "every successful return is preceded by SetValue of the returned value")
 		} else {
-			c.R.Bad("R-current", fk, fk, c.P.Pos(fn.Pos()), "the value published via SetValue differs from the value returned on the success path")
+			c.R.Bad("R-current", fk, fk, c.P.Pos(fn.Pos()), bad)
 		}
 	}
 }
@@ -225,7 +269,19 @@ func (c *Ctx) curveFormLabel(facts []ir.Fact, val ssa.Value, tb *ir.TB) string {
 // sliceOfCurveValues: the slice is built only by appending result #0 of SpeedCurve.Evaluate invokes.
 func sliceOfCurveValues(t *ir.Term) bool {
 	isElem := func(e *ir.Term) bool {
-		return e.Op == "res0" && len(e.Args) == 1 && e.Args[0].Op == "invoke:"+PkgCurves+".SpeedCurve.Evaluate"
+		if e.Op != "res0" || len(e.Args) != 1 {
+			return false
+		}
+		if e.Args[0].Op == "invoke:"+PkgCurves+".SpeedCurve.Evaluate" {
+			return true
+		}
+		// a helper of the curves package that hands back a member's Evaluate result (looked up and evaluated in one place)
+		if call, ok := e.Args[0].Val.(*ssa.Call); ok {
+			if cal := ir.Callee(call).Static; cal != nil && load_FuncPkgPath(cal) == PkgCurves {
+				return yieldsCurveValue(cal, 2)
+			}
+		}
+		return false
 	}
 	var ok func(t *ir.Term) bool
 	n := 0
@@ -257,6 +313,37 @@ func sliceOfCurveValues(t *ir.Term) bool {
 	return ok(t) && n > 0
 }
 
+// yieldsCurveValue: result #0 of every return of fn is result #0 of an interface call SpeedCurve.Evaluate
+// (possibly through another such helper) or an integer constant in 0..255.
+func yieldsCurveValue(fn *ssa.Function, depth int) bool {
+	if len(fn.Blocks) == 0 || fn.Signature.Results().Len() < 1 {
+		return false
+	}
+	rets := ir.Returns(fn)
+	for _, r := range rets {
+		v := ir.Resolve(r.Results[0])
+		if k, isConst := ir.ConstInt(v); isConst && k >= 0 && k <= 255 {
+			continue
+		}
+		ex, ok := v.(*ssa.Extract)
+		if !ok || ex.Index != 0 {
+			return false
+		}
+		call, ok := ex.Tuple.(*ssa.Call)
+		if !ok {
+			return false
+		}
+		if ir.IsInvoke(call, PkgCurves, "SpeedCurve", "Evaluate") {
+			continue
+		}
+		if cal := ir.Callee(call).Static; cal != nil && depth > 0 && load_FuncPkgPath(cal) == PkgCurves && yieldsCurveValue(cal, depth-1) {
+			continue
+		}
+		return false
+	}
+	return len(rets) > 0
+}
+
 // curveAssume is the assume side of the SpeedCurve.Evaluate contract.
 func (c *Ctx) curveAssume(tb *ir.TB) func(v ssa.Value) (ranges.AV, bool) {
 	return func(v ssa.Value) (ranges.AV, bool) {
@@ -264,6 +351,11 @@ func (c *Ctx) curveAssume(tb *ir.TB) func(v ssa.Value) (ranges.AV, bool) {
 		if ex, ok := v.(*ssa.Extract); ok && ex.Index == 0 {
 			if call, ok := ex.Tuple.(*ssa.Call); ok && ir.IsInvoke(call, PkgCurves, "SpeedCurve", "Evaluate") {
 				return ranges.AV{Lo: []ranges.Lin{ranges.Konst(0)}, Hi: []ranges.Lin{ranges.Konst(255)}}, true
+			}
+			if call, ok := ex.Tuple.(*ssa.Call); ok {
+				if cal := ir.Callee(call).Static; cal != nil && load_FuncPkgPath(cal) == PkgCurves && yieldsCurveValue(cal, 2) {
+					return ranges.AV{Lo: []ranges.Lin{ranges.Konst(0)}, Hi: []ranges.Lin{ranges.Konst(255)}}, true
+				}
 			}
 		}
 		// element of a slice built only from such results
